@@ -1,5 +1,5 @@
 //@ unit u_comm
-//@ depends u_graph
+//@ depends u_graph u_trav u_coh u_query
 // C12 (the acceptance half): is_partition accepts exactly the families of pairwise disjoint sets of node names whose union is the
 // node set.
 #![allow(unused_imports)]
@@ -19,6 +19,9 @@ broadcast use {f64ax::group_f64_axioms, dispax::axiom_display_total, cloneax::ax
 //@ include graph_spec.rs
 //@ include-assumed adjvec.rs u_graph
 //@ include-assumed graph_fns.rs u_graph
+//@ include-assumed traversal_inv.rs u_trav
+//@ include-assumed coherence_inv.rs u_coh
+//@ include-assumed query_fns.rs u_query
 
 // the communities are sets of node names, pairwise disjoint, and every node is in one of them
 pub open spec fn true_partition<T: Eq + PartialOrd + Send + Sync, A: Clone>(g: Graph<T, A>, c: Seq<HashSet<T>>) -> bool {
@@ -201,6 +204,118 @@ for name in itn: vset_iter_t(community)
             assert(seen@ =~= names);
         }
     }
+//@ end
+
+// ---- C12 / C20: modularity - the NotAPartition guard and panic-freedom of its lookups; the value (float sums, powf) is not claimed ----
+// R-ext (A5): float pipelines over hash maps / sets / slices as local declarations with ASSUMED contracts; closures that hold a lookup stay in place
+#[verifier::external_body]
+pub fn vsum_values<K>(m: &HashMap<K, f64>) -> (r: f64)
+{ m.values().sum() }
+#[verifier::external_body]
+pub fn vpowf2(x: f64) -> (r: f64)
+{ x.powf(2.0) }
+#[verifier::external_body]
+pub fn vclone_f64_map<K: Clone + Eq + Hash>(m: &HashMap<K, f64>) -> (r: HashMap<K, f64>)
+    ensures r@ == m@,
+{ m.clone() }
+// `set.iter().cloned().collect::<Vec<T>>()`
+#[verifier::external_body]
+pub fn vset_cloned_vec<T: Clone + Eq + Hash>(s: &HashSet<T>) -> (r: Vec<T>)
+    ensures forall|x: T| r@.contains(x) <==> s@.contains(x),
+{ s.iter().cloned().collect() }
+// `set.iter().map(f).sum::<f64>()` where f yields references to numbers: ASSUMED to call f on every element; f is verified in place
+#[verifier::external_body]
+pub fn vsum_refs_over_set<'a, T: Eq + Hash, F: FnMut(&'a T) -> &'a f64>(s: &'a HashSet<T>, f: F) -> (r: f64)
+    requires forall|x: &'a T| s@.contains(*x) ==> call_requires(f, (x,)),
+{ s.iter().map(f).sum() }
+// `slice.iter().map(f).sum::<f64>()`
+#[verifier::external_body]
+pub fn vsum_over_slice<X, F: FnMut(&X) -> f64>(s: &[X], f: F) -> (r: f64)
+    requires forall|i: int| 0 <= i < s@.len() ==> call_requires(f, (&#[trigger] s@[i],)),
+{ s.iter().map(f).sum() }
+#[verifier::external_body]
+pub fn vsum_edge_weights<T: PartialOrd + Send, A>(v: &Vec<&Arc<Edge<T, A>>>) -> (r: f64)
+{ v.iter().map(|e| e.weight).sum() }
+
+// rebuilding the subgraph induced by one community does not fail (precondition of Graph::get_subgraph, which unwraps: C15)
+pub open spec fn community_rebuilds<T: Eq + PartialOrd + Send + Sync, A: Clone>(g: &Graph<T, A>, sel: Set<T>) -> bool {
+    forall|kn: Seq<int>, ke: Seq<int>, rr: Result<Graph<T, A>, Error>| #[trigger] subgraph_outcome(*g, sel, kn, ke, rr) ==> rr.is_ok()
+}
+
+//@ extract fn src/algorithms/community/partitions.rs convert_values_to_f64 nobody
+//@ head
+#[verifier::external_body]
+//@ rewrite
+-> HashMap<T, f64>
+//@ with
+-> (r: HashMap<T, f64>)
+//@ spec
+    ensures
+        r@.dom() =~= hashmap@.dom(),
+//@ end
+
+//@ extract fn src/algorithms/community/partitions.rs modularity props=C12,C20
+//@ rewrite
+) -> Result<f64, Error>
+//@ with
+) -> (r: Result<f64, Error>)
+//@ rewrite
+let m: f64 = outd.values().sum();
+            let norm = (1.0 / m).powf(2.0);
+//@ with
+let m: f64 = vsum_values(&outd);
+            let norm = vpowf2(1.0 / m);
+//@ rewrite
+let deg_sum: f64 = deg.values().sum();
+            let m = deg_sum / 2.0;
+            let norm = (1.0 / deg_sum).powf(2.0);
+            (deg.clone(), deg, m, norm)
+//@ with
+let deg_sum: f64 = vsum_values(&deg);
+            let m = deg_sum / 2.0;
+            let norm = vpowf2(1.0 / deg_sum);
+            (vclone_f64_map(&deg), deg, m, norm)
+//@ rewrite
+let community_contribution = |community: &HashSet<T>| {
+        let comm_vec: Vec<T> = community.iter().cloned().collect();
+//@ with
+let community_contribution = |community: &HashSet<T>| -> (o: f64)
+        requires
+            graph.wf_nodes(), graph.wf_estore(), graph.wf_rows(),
+            forall|x: T| community@.contains(x) ==> graph.knows(x),
+            forall|k: T| graph.knows(k) ==> out_degree@.contains_key(k) && in_degree@.contains_key(k),
+            community_rebuilds(graph, community@),
+    {
+        let comm_vec: Vec<T> = vset_cloned_vec(community);
+        proof { assert(comm_vec@.to_set() =~= community@); }
+//@ rewrite
+true => subgraph_edges.iter().map(|e| e.weight).sum(),
+            false => subgraph_edges.len() as f64,
+//@ with
+true => vsum_edge_weights(&subgraph_edges),
+            false => vcast_usize_f64(subgraph_edges.len()),
+//@ rewrite
+let out_degree_sum: f64 = community.iter().map(|n| out_degree.get(n).unwrap()).sum();
+//@ with
+let out_degree_sum: f64 = vsum_refs_over_set(community, |n: &T| -> (o: &f64) requires out_degree@.contains_key(*n), key_model_ok::<T>() { out_degree.get(n).unwrap() });
+//@ rewrite
+true => community.iter().map(|n| in_degree.get(n).unwrap()).sum(),
+//@ with
+true => vsum_refs_over_set(community, |n: &T| -> (o: &f64) requires in_degree@.contains_key(*n), key_model_ok::<T>() { in_degree.get(n).unwrap() }),
+//@ rewrite
+Ok(communities.iter().map(community_contribution).sum())
+//@ with
+Ok(vsum_over_slice(communities, community_contribution))
+//@ spec
+    requires
+        graph.wf_nodes(), graph.wf_estore(), graph.wf_rows(),
+        graph.wf_index_sets(), graph.wf_name_sets(), graph.wf_name_store(),
+        name_order_total::<T>(),
+        forall|c: int| 0 <= c < communities@.len() ==> community_rebuilds(graph, (#[trigger] communities@[c])@),
+    ensures
+        // [C12.modularity.rejects_exactly_the_non_partitions]
+        !true_partition(*graph, communities@) ==> is_err_kind(r, ErrorKind::NotAPartition),
+        true_partition(*graph, communities@) ==> r.is_ok(),
 //@ end
 } // verus!
 fn main() {}
